@@ -67,38 +67,46 @@ Optional(T, i, stale) == \E a \in Anc(T, i) \cup {i} : T[a].s \in stale
 
 (* ---- "after removing it the walk continues with what follows" ----------- *)
 (* T0 = snapshot when the walker parked, ev = the event it parked at, T1 =   *)
-(* snapshot when it is resumed.  Candidates: the events after ev in the      *)
-(* pre-mutation order whose node is still alive and rooted, not yet entered  *)
-(* (a leave event of on="both" needs its node entered) and reachable under   *)
-(* the recursion settings.  The next yield must be the first candidate that  *)
-(* is not optional, or an optional one before it; the walk may only end if   *)
-(* no mandatory candidate is left.                                           *)
-(* A node replaced in place may change kind: whether it passes the filter is  *)
-(* read from T1 for nodes that are still alive (the code re-tests on leaving).*)
-NowEligible(T0, T1) ==
-  [i \in 1..Len(T0) |-> IF T0[i].s \in Serials(T1) THEN [T0[i] EXCEPT !.e = T1[IdxOf(T1, T0[i].s)].e] ELSE T0[i]]
+(* snapshot when it is resumed.  "What follows" is read in the order of T1   *)
+(* (surviving nodes keep their relative order; nodes put below a pending     *)
+(* node during the park are walked when the walk gets there):                *)
+(*  - a node that existed at T0 follows if its event comes after ev in the   *)
+(*    pre-mutation order of T0 (structural order: every node on entry and on *)
+(*    leaving, whatever the filter);                                         *)
+(*  - a node that is new since T0 follows if the nearest ancestor that       *)
+(*    existed at T0 had not been entered (expanded) yet at ev; new nodes put *)
+(*    where the walk has already been are not walked (documented);           *)
+(*  - it is still to be entered (a leave event of on="both" needs its node   *)
+(*    entered) and reachable under the recursion settings.                   *)
+(* A node replaced in place may change kind: whether it passes the filter is *)
+(* read from T1 (the code re-tests on leaving).  The next yield must be the  *)
+(* first candidate that is not optional, or an optional one before it; the   *)
+(* walk may only end if no mandatory candidate is left.                      *)
+AllE(T) == [i \in 1..Len(T) |-> [T[i] EXCEPT !.e = TRUE]]
+Structural(T, cfg) == IF T = <<>> THEN <<>> ELSE Ev(AllE(T), 1, [cfg EXCEPT !.on = "both", !.rootleave = TRUE])
 
 Follows(T0, ev, T1, cfg, entered, opened) ==
-  LET E0  == Events(NowEligible(T0, T1), cfg)
-      pos == PosOf(E0, ev)
-      ok(e) == LET s == T0[e.i].s IN
-               /\ s \in Serials(T1)
-               /\ IF e.lv /\ cfg.on = "both" THEN (s \in entered \/ e.i = 1) ELSE s \notin entered
-               /\ Reach(T0, e.i, cfg, opened)
-  IN IF pos = 0 THEN <<>> ELSE SelectSeq(SubSeq(E0, pos + 1, Len(E0)), ok)
+  LET B0 == Structural(T0, cfg)
+      p0 == PosOf(B0, ev)
+      posB(i, l) == PosOf(B0, [i |-> i, lv |-> l])
+      old(j) == IdxOf(T0, T1[j].s)
+      oldAnc(j) == {a \in Anc(T1, j) : old(a) # 0}
+      nearest(j) == CHOOSE a \in oldAnc(j) : \A b \in oldAnc(j) : b <= a
+      pending(e) ==
+        LET s == T1[e.i].s  i0 == old(e.i) IN
+        /\ IF e.lv /\ cfg.on = "both" THEN (s \in entered \/ e.i = 1) ELSE s \notin entered
+        /\ Reach(T1, e.i, cfg, opened)
+        /\ IF i0 # 0 THEN posB(i0, e.lv) > p0
+           ELSE oldAnc(e.i) # {} /\ posB(old(nearest(e.i)), FALSE) > p0
+  IN IF p0 = 0 THEN <<>> ELSE SelectSeq(Events(T1, cfg), pending)
 
 AfterDead(T0, ev, T1, cfg, entered, opened, stale) ==
   LET C    == Follows(T0, ev, T1, cfg, entered, opened)
-      hard == {k \in 1..Len(C) : ~Optional(T0, C[k].i, stale)}
+      hard == {k \in 1..Len(C) : ~Optional(T1, C[k].i, stale)}
       k1   == IF hard = {} THEN Len(C) ELSE CHOOSE k \in hard : \A h \in hard : k <= h
       pick == IF cfg.scope THEN 1..Len(C) ELSE 1..k1       \* scope rules are not modelled: weak form
-      old  == {[s |-> T0[C[k].i].s, lv |-> C[k].lv] : k \in pick}
-      \* bottom-up walks reach nodes put below a pending candidate during the park before the candidate itself
-      new  == IF cfg.on # "leave" THEN {}
-              ELSE {[s |-> T1[j].s, lv |-> TRUE] : j \in {j \in 1..Len(T1) :
-                       /\ T1[j].s \notin Serials(T0) /\ T1[j].e
-                       /\ \E a \in Anc(T1, j) : [s |-> T1[a].s, lv |-> TRUE] \in old}}
-  IN [allowed |-> old \cup new, mayStop |-> hard = {} \/ cfg.scope]
+  IN [allowed |-> {[s |-> T1[C[k].i].s, lv |-> C[k].lv] : k \in pick},
+      mayStop |-> hard = {} \/ cfg.scope]
 
 (* ---- "after replacing the current node its new children are walked next"  *)
 (* ---- and send(True): the first event below the (new) current node ------- *)
